@@ -135,10 +135,10 @@ class SimNet:
         res = self.result
         direction = rec.dir
         fate = "ok"
-        if self._in_blackout(now, direction):
+        if not self.healed and self._in_blackout(now, direction):
             fate = "blackout"
             res.fault("blackout_drop")
-        elif self._rule_hit(rec.verb, direction, rec.data):
+        elif not self.healed and self._rule_hit(rec.verb, direction, rec.data):
             fate = "rule"
             res.fault("scripted_drop")
         elif not self.healed:
